@@ -19,7 +19,8 @@ type side struct {
 }
 
 type pair struct {
-	E        *kinds.Env
+	E        *kinds.Env // the new side's environment
+	OE       *kinds.Env // the old side's environment (usually the same; a separate store for some independent pairs)
 	Old, New *side
 	Relation string
 	Desc     string
@@ -156,7 +157,8 @@ func genPair(c *fw.C, cfg kinds.Cfg, mode string) (*pair, error) {
 		poolN = r.Range(200, 900)
 	}
 	pool := cfg.KK.Pool(r, cfg.BF, poolN)
-	p := &pair{E: e}
+	p := &pair{E: e, OE: e}
+	eo := e // environment of the old side
 	base, err := newSide(e)
 	if err != nil {
 		return nil, err
@@ -213,13 +215,17 @@ func genPair(c *fw.C, cfg kinds.Cfg, mode string) (*pair, error) {
 		}
 	case 3: // unrelated
 		p.Relation = "unrelated"
-		if o, err = newSide(e); err != nil {
+		if r.Bool() { // the two versions live in different stores (e.g. a replica)
+			eo = kinds.NewEnv(cfg)
+			p.Relation = "unrelated_other_store"
+		}
+		if o, err = newSide(eo); err != nil {
 			return nil, err
 		}
 		if n, err = newSide(e); err != nil {
 			return nil, err
 		}
-		if err = o.fill(e, r, pool, r.Range(1, len(pool))); err != nil {
+		if err = o.fill(eo, r, pool, r.Range(1, len(pool))); err != nil {
 			return nil, err
 		}
 		if err = n.fill(e, r, pool, r.Range(1, len(pool))); err != nil {
@@ -227,7 +233,11 @@ func genPair(c *fw.C, cfg kinds.Cfg, mode string) (*pair, error) {
 		}
 	case 4: // different heights: tiny vs large
 		p.Relation = "different_heights"
-		if o, err = newSide(e); err != nil {
+		if r.Bool() {
+			eo = kinds.NewEnv(cfg)
+			p.Relation = "different_heights_other_store"
+		}
+		if o, err = newSide(eo); err != nil {
 			return nil, err
 		}
 		if n, err = newSide(e); err != nil {
@@ -237,7 +247,7 @@ func genPair(c *fw.C, cfg kinds.Cfg, mode string) (*pair, error) {
 		if r.Bool() {
 			small, large = large, small
 		}
-		if err = o.fill(e, r, pool, small); err != nil {
+		if err = o.fill(eo, r, pool, small); err != nil {
 			return nil, err
 		}
 		if err = n.fill(e, r, pool, large); err != nil {
@@ -335,11 +345,16 @@ func genPair(c *fw.C, cfg kinds.Cfg, mode string) (*pair, error) {
 		p.Relation = "old_never_populated"
 	}
 	// residency of each side
-	for _, s := range []*side{o, n} {
+	p.OE = eo
+	for i, s := range []*side{o, n} {
 		if s == nil {
 			continue
 		}
-		if mode == "persisted" {
+		e := e
+		if i == 0 {
+			e = eo
+		}
+		if mode == "persisted" || (eo != p.E && i == 0) { // a version in another store is a persisted one
 			if err = s.persist(e, true); err != nil {
 				return nil, err
 			}
